@@ -104,22 +104,35 @@ Proof.
   - apply ws_exclude_never_touched; auto.
 Qed.
 
-(* a cloned job contains nothing whose name matches a user pattern — at any depth, files and directories —
-   except the state point and the document, which make up the job *)
+(* what the patterns exclude at path p (relative to the job directory) of a job that is cloned: directly in the job
+   directory a user pattern that is not one of the job's own two files, below it any user pattern *)
+Definition clone_excl_at (o : opts) (p : path) : bool :=
+  match p with
+  | [k] => clone_excl o k
+  | _ => o_exclude o (last p [])
+  end.
+
+(* a cloned job contains nothing — file or directory, at any depth — that the patterns exclude *)
 Lemma clone_excluded_absent : forall frepr o id sd ws p,
-  o_dry_run o = false -> alookup id ws = None -> p <> [] -> clone_excl o (last p []) = true ->
+  o_dry_run o = false -> alookup id ws = None -> p <> [] -> clone_excl_at o p = true ->
   lookup_path (id :: p) (Dir (fst (clone_or_sync frepr cfg_current o (id, Dir sd) ws))) = None.
 Proof.
   intros frepr o id sd ws p Hdry Hn Hp Hex.
   rewrite (clone_exact frepr cfg_current o id sd ws Hdry Hn). cbn [fst fix_excl cfg_current].
   rewrite lookup_snoc_new by assumption. rewrite lookup_path_touch.
-  rewrite lookup_path_prune_excl by assumption. reflexivity.
+  destruct p as [|k q]; [congruence|].
+  unfold clone_prune. cbn [fix_keep cfg_current]. rewrite lookup_prune_top. fold (clone_excl o k).
+  destruct q as [|k2 q].
+  - simpl in Hex. rewrite Hex. reflexivity.
+  - destruct (clone_excl o k); [reflexivity|].
+    destruct (alookup k sd) as [x|]; [|reflexivity].
+    rewrite lookup_path_prune_excl; [reflexivity|discriminate|exact Hex].
 Qed.
 
 (* ... and a dry-run clone creates nothing at all *)
 Lemma clone_dry_nothing : forall frepr o id sd ws,
   o_dry_run o = true -> alookup id ws = None -> clone_or_sync frepr cfg_current o (id, Dir sd) ws = (ws, None).
-Proof. intros frepr o id sd ws Hdry Hn. unfold clone_or_sync, copy_tree. rewrite Hn, Hdry. reflexivity. Qed.
+Proof. intros frepr o id sd ws Hdry Hn. unfold clone_or_sync, copy_tree_gen. rewrite Hn, Hdry. reflexivity. Qed.
 
 Lemma deep_by_content_job_level : forall frepr cf o sid did dsp src dst c1 m1 c2 m2,
   run_sync frepr cf o (E_job sid did dsp) src dst =
